@@ -30,7 +30,7 @@ NLen(n) == CASE n = "A" -> 6 [] n = "B" -> 4 [] n = "CT" -> 12 [] n = "CL" -> 14
 \* value tokens and their byte lengths; "n<k>" is the decimal text of a body length
 TokLen(t) == CASE t = "p" -> 1 [] t = "qq" -> 2 [] t = "L" -> 300 [] t = "date" -> 29
                [] t = "text" -> 25 [] t = "html" -> 24 [] t = "json" -> 16 [] t = "raw" -> 24 [] t = "sse" -> 17 [] t = "nocache" -> 25 [] t = "chunked" -> 7
-               [] t = "n0" -> 1 [] t = "n3" -> 1 [] t = "n12" -> 2 [] t = "n300" -> 3
+               [] t = "n0" -> 1 [] t = "n3" -> 1 [] t = "n12" -> 2 [] t = "n300" -> 3 [] t = "n8" -> 1 [] t = "n248" -> 3 [] t = "n4088" -> 4 [] t = "n1" -> 1 [] t = "n1000" -> 4 [] t = "n5000" -> 4
                [] t = "c1" -> 5 [] t = "c2" -> 7 [] OTHER -> 1
 RECURSIVE ValLen(_)
 ValLen(v) == IF v = <<>> THEN 0 ELSE TokLen(Head(v)) + (IF Len(v) > 1 THEN 2 ELSE 0) + ValLen(Tail(v))
@@ -38,7 +38,9 @@ LenTok(n) == "n" \o ToString(n)
 LineLen(n, v) == NLen(n) + 2 + ValLen(v) + 2
 \* ops are sequences of strings only: body lengths and statuses are tokens too
 LenOf(t) == CASE t = "n0" -> 0 [] t = "n1" -> 1 [] t = "n3" -> 3 [] t = "n12" -> 12 [] t = "n300" -> 300
-              [] t = "n1000" -> 1000 [] t = "n5000" -> 5000 [] OTHER -> 0
+              [] t = "n1000" -> 1000 [] t = "n5000" -> 5000
+              \* a one-event stream of these lengths makes a chunk of exactly 16, 256 and 4096 bytes (its hexadecimal size gains a digit)
+              [] t = "n8" -> 8 [] t = "n248" -> 248 [] t = "n4088" -> 4088 [] OTHER -> 0
 StatusOf(t) == CASE t = "s200" -> 200 [] t = "s204" -> 204 [] t = "s404" -> 404 [] t = "s304" -> 304 [] t = "s500" -> 500 [] t = "s201" -> 201 [] OTHER -> 200
 
 BodyKinds == {"text", "html", "json", "raw", "stream"}     \* stream: one server-sent event of `len` bytes, chunked
@@ -52,6 +54,9 @@ MayCarryBody(status) == status \notin {204, 304, 100, 101}
 \*   <<"cookie", t>>                                        Set-Cookie
 \*   <<"body", kind, lentok>>  <<"drop">>                      set_text / set_html / set_json / set_payload; drop_content
 \*   <<"status", "s204">>
+\*   <<"rebuild">>                                           the header set taken apart and put together again through the public bulk
+\*                                                           constructor: headers := ResponseHeaders::from_iter(headers.into_iter() minus Set-Cookie)
+\*                                                           (every pair is a `set` on a fresh header set; the cookies are left behind)
 
 \* --------------------------------------------------------------------------------------------- layer (a): ideal
 IdealInitFor(names) ==
@@ -71,6 +76,7 @@ IdealApply(s, op) ==
                                            !.body = [present |-> TRUE, len |-> LenOf(op[3]), stream |-> op[2] = "stream"]]
     [] k = "drop"             -> [s EXCEPT !.hdr["CT"] = <<>>, !.body = [present |-> FALSE, len |-> 0, stream |-> FALSE]]
     [] k = "status"           -> [s EXCEPT !.status = StatusOf(op[2])]
+    [] k = "rebuild"          -> [s EXCEPT !.cookies = <<>>]
     [] OTHER -> s
 
 \* a header block as observed: sequence of [n |-> name, v |-> value tokens]
@@ -166,6 +172,15 @@ CAppend(s, n, t) == LET i == CIndex(s, n) IN
 CRemove(s, n) == LET i == CIndex(s, n) IN
   IF i = 0 THEN s ELSE [s EXCEPT !.size = @ - LineLen(n, s.custom[i].v), !.custom = RemoveAt(@, i)]
 
+\* Headers::from_iter over Headers::into_iter: a fresh Headers::new() (Date and Content-Length: 0 seeded), every live standard entry
+\* inserted in the order of the value vector, then every custom entry
+RECURSIVE FoldIns(_, _), FoldCIns(_, _)
+FoldIns(s, es)  == IF es = <<>> THEN s ELSE FoldIns(Insert(s, Head(es).k, Head(es).v), Tail(es))
+FoldCIns(s, es) == IF es = <<>> THEN s ELSE FoldCIns(CInsert(s, Head(es).k, Head(es).v), Tail(es))
+Rebuild(s) == LET fresh == [ImplInit EXCEPT !.status = s.status, !.content = s.content]
+                  live  == SelectSeq(s.values, LAMBDA e : s.slots[e.k] # 0)
+              IN FoldCIns(FoldIns(fresh, live), s.custom)
+
 ImplApply(s, op) ==
   LET k == op[1] IN
   CASE k = "set"    -> Insert(s, op[2], <<op[3]>>)
@@ -182,6 +197,7 @@ ImplApply(s, op) ==
                          ELSE [Insert(Insert(s, "CT", <<op[2]>>), "CL", <<op[3]>>) EXCEPT !.content = [present |-> TRUE, len |-> LenOf(op[3]), stream |-> FALSE]]
     [] k = "drop"   -> [Remove(Remove(s, "CT"), "CL") EXCEPT !.content = [present |-> FALSE, len |-> 0, stream |-> FALSE]]
     [] k = "status" -> [s EXCEPT !.status = StatusOf(op[2])]
+    [] k = "rebuild" -> Rebuild(s)
     [] OTHER -> s
 
 \* Router::handle (HEAD: content := None, headers kept) then Response::complete
